@@ -324,6 +324,6 @@ def modelSkeleton : List (String × List (String × String)) :=
     ("Receive.W_got_message", [("-", "_B.got_message")]),
     ("Receive.S_got_verified_key", [("-", "_S.got_verified_key")]) ]
 
-theorem skeleton_agrees : ∀ e ∈ modelSkeleton, Skel.skeleton e.1 = e.2 := by decide
+theorem skeleton_agrees : ∀ e ∈ modelSkeleton, Skel.skeleton e.1 = e.2 := by decide +kernel
 
 end WV.Props.C03
